@@ -213,10 +213,6 @@ macro_rules! range_cases {
         grid.dedup();
         for &a in &grid {
             for &b in &grid {
-                // the property covers ranges of up to 2^62 elements (reversed ones hold none)
-                if b - a > (1i128 << 62) {
-                    continue;
-                }
                 for peers in 1..=9u64 {
                     if $fail.is_some() {
                         break;
@@ -384,7 +380,7 @@ fn build(tier: Tier) -> Vec<Scenario> {
         ($t:ty, $name:expr) => {
             out.push(loop_scenario(
                 format!("C15/range/{}", $name),
-                format!("Range<{}>: every (start, end) of a boundary grid (MIN, MIN+1, -2..3, 7, MAX-1, MAX, 2^31/2^62-sized spans) with at most 2^62 elements (empty and reversed included) x 1..=9 peers x every index; oracle on the sub-range bounds", $name),
+                format!("Range<{}>: every (start, end) of a boundary grid (MIN, MIN+1, -2..3, 7, MAX-1, MAX, 2^31/2^62-sized spans) (empty, reversed and full-width ranges included) x 1..=9 peers x every index; oracle on the sub-range bounds", $name),
                 Arc::new(|| {
                     let mut cases = 0usize;
                     let mut fail: Option<Fail> = None;
